@@ -94,7 +94,7 @@ class OrderMistakeShock(EventABC):
             return []
 
     def hooked_before_order(self, simulator: "Simulator", order: "Order") -> None:  # type: ignore  # NOQA
-        if not self.triggerd:
+        if not self.triggerd and order.market_id == self.target_market.market_id:
             market: "Market" = self.simulator.id2market[order.market_id]  # type: ignore  # NOQA
             base_price: float = market.get_market_price()
             order_price: float = base_price * (1 + self.price_change_rate)
